@@ -164,11 +164,9 @@ func processMutationLogStream(w http.ResponseWriter, v dvid.VersionID, ch chan s
 			var op proto.MergeOp
 			if err := pb.Unmarshal(msg.Data, &op); err != nil {
 				dvid.Errorf("unable to unmarshal cleave message for version %d: %v\n", v, err)
-				wg.Done()
 				continue
 			}
 			if len(op.Merged) == 0 {
-				wg.Done()
 				continue
 			}
 			if _, found := origBodies[op.Target]; found {
@@ -190,11 +188,9 @@ func processMutationLogStream(w http.ResponseWriter, v dvid.VersionID, ch chan s
 			var op proto.CleaveOp
 			if err := pb.Unmarshal(msg.Data, &op); err != nil {
 				dvid.Errorf("unable to unmarshal cleave message for version %d: %v\n", v, err)
-				wg.Done()
 				continue
 			}
 			if len(op.Cleaved) == 0 {
-				wg.Done()
 				continue
 			}
 			if _, found := origBodies[op.Target]; found {
@@ -218,7 +214,6 @@ func processMutationLogStream(w http.ResponseWriter, v dvid.VersionID, ch chan s
 			var op proto.SplitOp
 			if err := pb.Unmarshal(msg.Data, &op); err != nil {
 				dvid.Errorf("unable to unmarshal split log message for version %d: %v\n", v, err)
-				wg.Done()
 				continue
 			}
 			if _, found := origBodies[op.Target]; found {
@@ -242,7 +237,6 @@ func processMutationLogStream(w http.ResponseWriter, v dvid.VersionID, ch chan s
 			var op proto.SupervoxelSplitOp
 			if err := pb.Unmarshal(msg.Data, &op); err != nil {
 				dvid.Errorf("unable to unmarshal split log message for version %d: %v\n", v, err)
-				wg.Done()
 				continue
 			}
 			if _, found := supervoxelSet[op.Supervoxel]; found {
